@@ -2,6 +2,7 @@ package main
 
 import (
 	"fmt"
+	"github.com/mithrandie/csvq/lib/option"
 	"math"
 	"strconv"
 	"strings"
@@ -32,7 +33,10 @@ const (
 	kText
 	kMixedBig // integers beyond 2^53 mixed with floats: outside the proved domain (F18)
 	kBigInt   // integers only, many of them beyond 2^53 and adjacent (their float64 images coincide)
+	kDateFmt  // datetimes written in the session's own @@DATETIME_FORMAT (alphabetical order ≠ chronological order)
 )
+
+const customDatetimeFormat = "%b %e, %Y"
 
 func colVal(g *hc.Gen, kind int) value.Primary {
 	if g.Intn(7) == 0 {
@@ -64,6 +68,8 @@ func colVal(g *hc.Gen, kind int) value.Primary {
 			return value.NewFloat(9007199254740992)
 		}
 		return value.NewInteger(int64(g.Intn(3)))
+	case kDateFmt:
+		return value.NewString(g.Pick("Feb 3, 2013", "Jan 15, 2012", "Dec 1, 2013", "Apr 9, 2011", "Mar 20, 2012", "Feb 3, 2013", "Aug 30, 2010"))
 	case kDate:
 		t := time.Date(2012, 2, 3+g.Intn(3), 9, g.Intn(2), 0, g.Intn(2), time.UTC)
 		switch g.Intn(3) {
@@ -103,6 +109,11 @@ func run(seed int64, n int, dir string, _ []string) {
 	defer o.Close()
 	pr := hc.NewProc("")
 	defer pr.Close()
+	// a custom datetime format is in force for the whole run (the built-in notations keep working next to it)
+	hc.DatetimeFormats = []string{customDatetimeFormat}
+	if err := pr.P.Tx.SetFlag(option.DatetimeFormatFlag, customDatetimeFormat); err != nil {
+		o.Law("set_datetime_format_error", err.Error())
+	}
 
 	tables := n / 12
 	if tables < 5 {
@@ -120,6 +131,9 @@ func run(seed int64, n int, dir string, _ []string) {
 			if g.Intn(25) == 0 {
 				kinds[j] = kMixedBig
 				mixed = true
+			}
+			if g.Intn(12) == 0 {
+				kinds[j] = kDateFmt
 			}
 		}
 		nrows := []int{0, 1, 2, 3, 6, 12, 40, 170, 350}[g.Intn(9)]
